@@ -9,6 +9,7 @@ import (
 	"time"
 
 	"github.com/idena-network/idena-go/blockchain/types"
+	"github.com/idena-network/idena-go/blockchain/validation"
 	"github.com/idena-network/idena-go/common"
 	"github.com/idena-network/idena-go/config"
 	"github.com/idena-network/idena-go/core/state"
@@ -108,6 +109,7 @@ func (c *c17World) describe() map[string]interface{} {
 func (c *c17World) finalBlock(b *types.Block, p *Replica) {
 	w := c.w
 	c.rep.Progress("C17 world %d seed %d: final block %d of epoch %d", c.worldNo, w.Opt.Seed, b.Height(), c.sim.Plan.Epoch)
+	c.rep.Count("real_epochs_driven", 1)
 	// the proposer evaluated once while building (first pass); every further evaluation hits its
 	// cache. Same node, same block, same prior state: every evaluation must give the same verdict.
 	c.stats = p.Real().VC.VerifValidationStats()
@@ -170,7 +172,17 @@ func (c *c17World) finalBlock(b *types.Block, p *Replica) {
 			pass = "cached"
 		}
 	}
-	// K independent first-pass evaluations by ceremony objects re-created on a surviving DB
+	// the follower that never saw a transaction outside blocks evaluates as it is ...
+	for i := 0; i < c.K; i++ {
+		pass := "cached"
+		if i == 0 {
+			pass = "first"
+		}
+		if !c.evalOnCheck(c.fresh, b, "blind", pass) {
+			break
+		}
+	}
+	// ... and then gives K independent first-pass evaluations by ceremony objects re-created on its surviving DB
 	for i := 0; i < c.K; i++ {
 		if err := c.fresh.Restart(); err != nil {
 			c.rep.Violation("restart-failed:final", fmt.Sprintf("restart of a follower before the validation-finishing block failed: %v", err), nil)
@@ -200,6 +212,9 @@ func (c *c17World) snapshotPre() {
 func (c *c17World) competingProposal() {
 	w, pl := c.w, c.sim.Plan
 	c.altTx, c.altNote = nil, ""
+	if len(pl.Chain3) == 4 {
+		return // the epoch result of this epoch is known to depend on map order; a second proposal adds nothing
+	}
 	if c.alt == nil || !c.alt.Alive || !c.alt.CanPropose() {
 		c.rep.Count("competing_proposal_skipped_no_proposer", 1)
 		return
@@ -207,15 +222,14 @@ func (c *c17World) competingProposal() {
 	// a candidate that sent nothing so far commits to answers at the last moment: allowed on
 	// chain, changes nothing but the "participated" bit of that identity
 	var X *Actor
-	for _, a := range pl.Cands {
-		if len(pl.InBlock[a]) == 0 && pl.Beh[a] != nil && pl.Beh[a].Class == "missAll" && w.ByAddr[a] != nil && !w.Identity(a).State.NewbieOrBetter() == false {
-			X = w.ByAddr[a]
-			break
-		}
-	}
-	if X == nil {
+	for pass := 0; pass < 2 && X == nil; pass++ {
 		for _, a := range pl.Cands {
-			if len(pl.InBlock[a]) == 0 && pl.Beh[a] != nil && pl.Beh[a].Class == "missAll" && w.ByAddr[a] != nil {
+			if len(pl.InBlock[a]) != 0 || w.ByAddr[a] == nil || c.sim.isNodeOwner(a) {
+				continue
+			}
+			ps := c.pre[a].State
+			// first choice: an identity that the ceremony is going to kill (its stake handling depends on "participated" before upgrade 12)
+			if pass == 0 && (ps == state.Newbie || ps == state.Candidate || ps == state.Zombie) || pass == 1 {
 				X = w.ByAddr[a]
 				break
 			}
@@ -225,14 +239,14 @@ func (c *c17World) competingProposal() {
 	if X != nil {
 		h := crypto.Hash([]byte("late"))
 		tx := w.Tx(X, types.SubmitAnswersHashTx, nil, nil, h[:])
-		if err := c.alt.TxPool.AddExternalTxs(0, tx); err == nil {
+		if err := c.alt.TxPool.AddExternalTxs(validation.InboundTx, tx); err == nil {
 			c.altTx = tx
 			c.altNote = "late answers-hash of " + stateNames[w.Identity(X.Addr).State] + " identity that sent nothing else"
 		}
 	}
 	if len(w.Accounts) > 0 {
 		to := w.God.Addr
-		c.alt.TxPool.AddExternalTxs(0, w.Tx(w.Accounts[0], types.SendTx, &to, Dna(1), nil))
+		c.alt.TxPool.AddExternalTxs(validation.InboundTx, w.Tx(w.Accounts[0], types.SendTx, &to, Dna(1), nil))
 	}
 	prop := w.Propose(c.alt)
 	for _, tx := range c.alt.TxPool.VerifAll() {
@@ -251,6 +265,41 @@ func (c *c17World) competingProposal() {
 		c.rep.Violation("epoch-result-differs:competing-proposal-first:"+ErrClass(err),
 			fmt.Sprintf("a validation-finishing proposal for height %d built by one node is refused by another: %v", prop.Block.Height(), err), DescribeBlock(prop.Block))
 	}
+}
+
+// zeroFlipCeremony handles a ceremony whose shard has no flip at all but in which somebody
+// sent long answers: the lottery hands every candidate the placeholder long list [0], and
+// evaluating the epoch then indexes flip 0 of an empty flip table. The first evaluation is
+// made under panic capture so that the child survives and the event gets a stable signature.
+// Returns false if the world cannot go on.
+func (c *c17World) zeroFlipCeremony() bool {
+	w, pl := c.w, c.sim.Plan
+	if len(pl.Flips) != 0 {
+		return true
+	}
+	c.rep.Count("real_ceremonies_without_flips", 1)
+	long := 0
+	for _, m := range pl.InBlock {
+		if _, ok := m[types.SubmitLongAnswersTx]; ok {
+			long++
+		}
+	}
+	if long == 0 {
+		return true
+	}
+	el := w.Eligible()
+	if len(el) == 0 {
+		el = []*Replica{w.View()}
+	}
+	p, stack := verifutil.Catch(func() { w.Propose(el[0]) })
+	if p == nil {
+		return true
+	}
+	c.rep.Violation("epoch-evaluation-panics:ceremony-without-flips",
+		fmt.Sprintf("epoch %d has no flip in its only shard, %d candidates have long answers on chain (the lottery gave each the placeholder long list [0]); building the validation-finishing block panics in %s: %v",
+			pl.Epoch, long, verifutil.TopRepoFrame(stack), p),
+		map[string]interface{}{"world": c.describe(), "plan": pl.Describe(), "stack": verifutil.Trunc(stack, 3000)})
+	return false
 }
 
 func (c *c17World) afterFinal(b *types.Block) {
@@ -368,20 +417,6 @@ func (c *c17World) afterFinal(b *types.Block) {
 		}
 	}
 	sort.Strings(trans)
-	if c.sim.Debug {
-		var el []string
-		for _, r := range w.Eligible() {
-			el = append(el, r.Name)
-		}
-		fmt.Printf("DBG epoch %d done: eligible=%v failed=%v\n", pl.Epoch, el, failed)
-		for _, n := range append([]*Actor{w.God}, w.Nodes...) {
-			var is interface{}
-			if c.stats != nil && c.stats.Shards[1] != nil && c.stats.Shards[1].IdentitiesPerAddr[n.Addr] != nil {
-				is = *c.stats.Shards[1].IdentitiesPerAddr[n.Addr]
-			}
-			fmt.Printf("DBG   %s %s -> %s stats=%+v inblock=%v\n", n.Name, stateNames[c.pre[n.Addr].State], stateNames[st.GetIdentity(n.Addr).State], is, pl.InBlock[n.Addr])
-		}
-	}
 	if changes > 0 {
 		rep.Count("real_epochs_with_status_change", 1)
 		rep.Distinct("epoch", b.Hash().Hex())
@@ -448,6 +483,11 @@ func sectionEnd(s string, from int) int {
 }
 
 func c17Version(shard int) config.ConsensusVerson {
+	if v := os.Getenv("VERIF_C17_VERSION"); v != "" {
+		var n int
+		fmt.Sscan(v, &n)
+		return config.ConsensusVerson(n)
+	}
 	// validation.SetAppConfig is process-global: one consensus version per child process
 	switch shard % 8 {
 	case 3:
@@ -465,7 +505,7 @@ func TestVerifC17Real(t *testing.T) {
 	rep := verifutil.NewReport()
 	defer rep.Write()
 	shard := verifutil.Shard()
-	nWorlds := verifutil.Scale(1, 2)
+	nWorlds := verifutil.Scale(2, 12)
 	nEpochs := verifutil.Scale(3, 4)
 	K := verifutil.Scale(3, 6)
 	orders := map[string]bool{}
@@ -473,7 +513,7 @@ func TestVerifC17Real(t *testing.T) {
 		rng := verifutil.Stream(17, uint64(wn))
 		seed := rng.U64()>>16 | 1
 		o := Options{Seed: seed, Version: c17Version(shard), NNodes: 3, NIdent: rng.Range(9, 24), NAccounts: 2, Epoch: EpochReal,
-			ValidationInterval: 35 * time.Minute, FirstCeremonyIn: 30 * time.Minute, GodIsIdentity: rng.Intn(3) != 0, DelegationSwitchRange: 4}
+			ValidationInterval: 35 * time.Minute, FirstCeremonyIn: 30 * time.Minute, GodIsIdentity: (shard+wn)%6 != 5, DelegationSwitchRange: 4}
 		// node owners must be able to stay validated for several epochs: a genesis Verified
 		// identity has no score history and is killed by the first ceremony that has flips
 		// (fewer than 13 qualified flips), so worlds whose node identities are all Human are
@@ -500,10 +540,8 @@ func TestVerifC17Real(t *testing.T) {
 			c.variant[r] = variant
 			return r
 		}
-		blind := mk(w.God, "blind", "blind")
-		_ = blind
 		c.restarters = []*Replica{mk(w.God, "restart-a", "restart"), mk(w.God, "restart-b", "restart")}
-		c.fresh = mk(w.God, "fresh", "fresh")
+		c.fresh = mk(w.God, "blind", "blind") // no mempool traffic at all; re-created K times at the final block ("fresh")
 		c.rival = mk(w.God, "rival", "rival")
 		c.alt = mk(w.Nodes[0], "alt", "alt")
 		sim := NewCeremonySim(w, rng.Fork(1), rep)
@@ -567,11 +605,15 @@ func TestVerifC17Real(t *testing.T) {
 				}
 			}
 		}
-		sim.BeforeFinal = func() {
+		sim.BeforeFinal = func() bool {
 			c.snapshotPre()
+			if !c.zeroFlipCeremony() {
+				return false
+			}
 			if os.Getenv("VERIF_C17_NOALT") == "" {
 				c.competingProposal()
 			}
+			return true
 		}
 		w.beforeDistribute = func(b *types.Block, p *Replica) {
 			if b.Header.Flags().HasFlag(types.ValidationFinished) {
